@@ -299,7 +299,13 @@ def run_session(scenario, policy, workdir, clients='scripted', faults=None, max_
         S.spawn(sched, f'client-{p}', fn)
     for label, fn in (extra_threads or []):
         S.spawn(sched, label, fn(addr))
-    status = sched.run()
+    # the bundled Client prints to stdout ("run"); keep the check's own output clean
+    _stdout = sys.stdout
+    sys.stdout = io.StringIO()
+    try:
+        status = sched.run()
+    finally:
+        sys.stdout = _stdout
     r = Result()
     r.status = status
     r.steps = sched.steps
